@@ -4,9 +4,16 @@
     * `FixtureRegistry.check_dependencies` on the registry `PreparedProject._build_fixture_registry` builds for a
       project declaring `g()` and `f(g)`, for all declarable (scope, per_thread) of `f` and of `g` (`pairTable`)
   equal the model's `declAllowed` / `pairVerdict` (`Model/FixtureDecl.lean`; closed form:
-  `LccModel.C15V.pair_decision_table`).  `Generated/C15Tables.lean` is written by harness/props/c15.py (`tables`).
+  `LccModel.C15V.pair_decision_table`), and
+    * a real `ThreadedFactory` accessed twice — first access by thread 1 in its base / a copied / a fresh `contextvars`
+      context, second access by the same or another OS thread in its base context / a copy of the first access's context /
+      a fresh one (`slotKeyTable`, 18 rows: did the second access reuse the object?) — equals `Threads.Ctx.hit .thread`
+      (`Model/ThreadsCtx.lean`; closed form `LccModel.C15Ctx.hit_iff_same_os_thread`: the slot belongs to the OS thread,
+      not to the context; a context-keyed slot differs on 8 rows).
+  `Generated/C15Tables.lean` is written by harness/props/c15.py (`tables`).
 -/
 import LccModel.Model.FixtureDecl
+import LccModel.Model.ThreadsCtx
 import LccModel.Generated.C15Tables
 
 namespace LccModel.Generated.C15
@@ -25,5 +32,12 @@ theorem pair_table_complete (fs : Scope) (fpt : Bool) (gs : Scope) (gpt : Bool)
     (hf : declAllowed fs fpt = true) (hg : declAllowed gs gpt = true) :
     (fs, fpt, gs, gpt) ∈ pairTable.map (·.1) := by
   cases fs <;> cases fpt <;> cases gs <;> cases gpt <;> first | decide | (simp [declAllowed] at hf hg)
+
+theorem slot_key_table_agrees :
+    ∀ r ∈ slotKeyTable, Threads.Ctx.hit .thread r.1.1 r.1.2.1 r.1.2.2 = r.2 := by decide
+
+theorem slot_key_table_complete (f : Threads.Ctx.Where) (o : Bool) (s : Threads.Ctx.Where) :
+    (f, o, s) ∈ slotKeyTable.map (·.1) := by
+  cases f <;> cases o <;> cases s <;> decide
 
 end LccModel.Generated.C15
